@@ -1,3 +1,4 @@
+import FluentProofs.ConstTieSyntax
 import FluentProofs.ParserHoareEntry
 /-!
 # C01 — parsing is total
